@@ -49,8 +49,8 @@ PROPS = {
                 quick=[R(checks=1500)],
                 thorough=[R(checks=5000, shards=16, timeout=1500)]),
     "C05": dict(pkg="c05", level="exploration",
-                quick=[R(checks=800)],
-                thorough=[R(checks=4000, shards=16, timeout=1500)]),
+                quick=[R(checks=800), R(checks=60, shards=2, env={"VERIF_C05_LOOP": "nc"})],
+                thorough=[R(checks=4000, shards=16, timeout=1500), R(checks=600, shards=8, timeout=1500, env={"VERIF_C05_LOOP": "nc"})]),
     "C06": dict(pkg="c06", level="exploration",
                 quick=[R(checks=110, shards=8, timeout=900)],
                 thorough=[R(checks=500, shards=16, timeout=2400)]),
